@@ -226,8 +226,8 @@ func tcpPhaseC05(o *common.Opts, nHist int) (out tcpOut) {
 					}
 					sort.Strings(ns)
 					short := shortestIllegalPrefix(part)
-					report(witness{Kind: "not-linearizable", Detail: fmt.Sprintf("TCP: key %q (%d ops, %d connections, ShardNum %d, class %s): no sequential order respecting real time explains the replies; shortest illegal prefix by call time has %d ops", k, len(part), nClients, shards, class, len(short)),
-						History: historyText(short), Sig: "not-linearizable|tcp|" + strings.Join(ns, ",")})
+					report(witness{Kind: "not-linearizable", Detail: fmt.Sprintf("TCP: key %q (%d ops, %d connections, ShardNum %d, class %s): no sequential order respecting real time explains the replies; shortest illegal prefix in time has %d ops (pending ones with their replies withheld)", k, len(part), nClients, shards, class, len(short)),
+						History: historyText(short), Full: fullHistory(part), Sig: "not-linearizable|tcp|" + strings.Join(ns, ",")})
 					break
 				}
 			}
